@@ -6,4 +6,5 @@ ls -d $D/C*/m* | while read m; do
   id=$(basename $(dirname $m)); n=$(basename $m)
   echo "$id $n $m/patch.diff"
 done | xargs -P $PAR -L 1 sh -c 'R=$(/verif/tools/try_mutant2.sh $2 $0 | tr "\n" " " | cut -c1-500); echo "$0-$1: $R"' >> "$OUT" 2>&1
+rm -rf ${VERIF_MUTANT_GOCACHE:-/tmp/gocache-mutants}
 echo SWEEP-DONE >> "$OUT"
